@@ -72,15 +72,39 @@ Proof.
  intros. eapply answers_step; eauto.
 Qed.
 
-Lemma C11_open_answered_refuted_pf :
-  exists (c : cfg) (ops : list op) (s : st) (owed : peer -> bool),
-    ledger c init (fun _ => false) ops = Some (s, owed) /\ owed 0 = true /\ obligation s 0 = false.
+Lemma reachable_B3 c s : reachable c s -> B3 s.
 Proof.
+  intros R. assert (X : SInv s /\ B3 s).
+  { induction R as [|s o s' ev cl R [I B] S].
+    - split; [apply SInv_init|apply B3_init].
+    - split; [|eapply step_B3; eauto].
+      destruct (step_SInv c s o I) as (s2 & e2 & c2 & E & I2). rewrite E in S. injection S as <- _ _. exact I2. }
+  apply X.
+Qed.
 
-  exists cfg_w0, w_failed_sid2.
-  destruct (ledger cfg_w0 init (fun _ => false) w_failed_sid2) as [[s owed]|] eqn:E.
-  - exists s, owed. split; auto. pose proof w_failed_check as W. rewrite E in W. inversion W. auto.
-  - pose proof w_failed_check as W. rewrite E in W. discriminate.
+Lemma C11_no_dead_substream_id_pf :
+  forall (c : cfg) (s : st), reachable c s ->
+    (forall p x, (ps s p = Some (OutInit x) \/ exists d i, ps s p = Some (Validating d (OInit x) i)) -> In (x, p) (spend s)) /\
+    (forall x q, In (x, q) (pend s) -> In (x, q) (spend s)).
+Proof.
+  intros c s R. destruct (reachable_B3 c s R) as [B P]. split; auto.
+  intros p x [H|(d & i & H)]; apply B; rewrite H; reflexivity.
+Qed.
+
+Lemma C11_open_answered_before_fix_refuted_pf :
+  exists (c : cfg) (pre : list op) (s s' : st),
+    exec c init pre = Some s /\ ledger_env c init pre = true /\ hopen s 0 = false /\
+    ps s 0 = Some (Closed (Some 0)) /\ pend_find 0 (pend s) = None /\ spend s = [] /\
+    on_open_old c s 0 = Some (s', [], []) /\ in_progress (ps s' 0) = true /\ obligation s' 0 = false /\
+    exists s2, on_open c s 0 = Some (s2, [], [COpen 0 1]) /\ obligation s2 0 = true.
+Proof.
+  exists cfg_w0, w_failed_pre.
+  pose proof failed_id_before_fix as W.
+  destruct (exec cfg_w0 init w_failed_pre) as [s|] eqn:E; [|discriminate W].
+  destruct (on_open_old cfg_w0 s 0) as [[[s' ev] cl]|] eqn:E1; [|discriminate W].
+  destruct (on_open cfg_w0 s 0) as [[[s2 ev2] cl2]|] eqn:E2; [|discriminate W].
+  injection W as W1 W2 W3 W4 W5 W6 W7 W8 W9 W10 W11 W12 W13 W14. subst.
+  exists s, s'. repeat split; auto. exists s2. split; auto.
 Qed.
 
 Lemma C11_open_answered_class3_refuted_pf :
